@@ -478,22 +478,11 @@ func runC18(c *core.Ctx) {
 	}
 
 	// encoding field = the field of ParserSettings loaded in WrapEncoding and passed to the table lookup
-	var encField *types.Var
+	// (the read may sit in a helper of package header that WrapEncoding calls: g2EncodingField follows static calls)
 	encTag := ""
-	for _, b := range wrap.Blocks {
-		for _, in := range b.Instrs {
-			if fa, ok := in.(*ssa.FieldAddr); ok {
-				if n := core.FieldOwner(fa); n != nil && n.Obj() == psObj {
-					fld := core.FieldOfAddr(fa)
-					if encField != nil && encField != fld {
-						encField = nil
-						encTag = "<ambiguous>"
-						break
-					}
-					encField = fld
-				}
-			}
-		}
+	encField, encAmbiguous := g2EncodingField(wrap, hp.Types, psObj)
+	if encAmbiguous {
+		encTag = "<ambiguous>"
 	}
 	if encField != nil {
 		for i := 0; i < psSt.NumFields(); i++ {
@@ -558,151 +547,12 @@ func runC18(c *core.Ctx) {
 	if _, ok := entries[c18IdentityKey]; !ok && tableOK {
 		c.Bad("R18b", fmt.Sprintf("%s[%q]", tkey, c18IdentityKey), table.Pos(), "no utf-8 entry")
 	}
-	c18WrapEncoding(c, wrap, table, encField, identityKeys)
+	g2WrapEncoding(c, wrap, hp.Types, table, encField, identityKeys)
 	c.Floor("R18b", 6, "3 table entries, lookup key, fallback, application to input")
 
 	// ---------------- R18c reader stack
 	c18ReaderStack(c, root.Types, wrap)
 	c.Floor("R18c", 4, "StripBOM argument, NewIngester argument, uses of input, handler -> format reader")
-}
-
-// c18WrapEncoding checks the selection logic of WrapEncoding.
-func c18WrapEncoding(c *core.Ctx, wrap *ssa.Function, table *ssa.Global, encField *types.Var, identity map[string]bool) {
-	fk := core.FuncKey(wrap)
-	input := ssa.Value(wrap.Params[1])
-	isTableLoad := func(v ssa.Value) bool {
-		u, ok := v.(*ssa.UnOp)
-		return ok && u.Op == token.MUL && u.X == ssa.Value(table)
-	}
-	isIdentityConst := func(v ssa.Value) bool {
-		k, ok := v.(*ssa.Const)
-		return ok && k.Value != nil && k.Value.Kind() == constant.String && identity[constant.StringVal(k.Value)]
-	}
-	// collect the lookups a function value may come from
-	var lookups []*ssa.Lookup
-	var collect func(v ssa.Value, seen map[ssa.Value]bool) bool
-	collect = func(v ssa.Value, seen map[ssa.Value]bool) bool {
-		if seen[v] {
-			return true
-		}
-		seen[v] = true
-		switch x := v.(type) {
-		case *ssa.Phi:
-			for _, e := range x.Edges {
-				if !collect(e, seen) {
-					return false
-				}
-			}
-			return true
-		case *ssa.Extract:
-			l, ok := x.Tuple.(*ssa.Lookup)
-			if !ok || x.Index != 0 {
-				return false
-			}
-			lookups = append(lookups, l)
-			return true
-		case *ssa.Lookup:
-			lookups = append(lookups, x)
-			return true
-		case *ssa.ChangeType:
-			return collect(x.X, seen)
-		}
-		return false
-	}
-	nret, passThrough := 0, 0
-	for _, b := range wrap.Blocks {
-		for _, in := range b.Instrs {
-			rt, ok := in.(*ssa.Return)
-			if !ok {
-				continue
-			}
-			nret++
-			v := core.Unwrap(rt.Results[0], true)
-			if v == input {
-				passThrough++
-				c.OK("R18b", fk+" returns", core.InstrPos(rt), "returns its input unchanged (pass-through)")
-				continue
-			}
-			call, ok := v.(*ssa.Call)
-			if !ok || call.Call.IsInvoke() || call.Call.StaticCallee() != nil || len(call.Call.Args) != 1 || call.Call.Args[0] != input {
-				c.Bad("R18b", fk+" returns", core.InstrPos(rt), "the result is not a function selected from the decoder table applied to the input parameter")
-				continue
-			}
-			if !collect(call.Call.Value, map[ssa.Value]bool{}) {
-				c.Unknown("R18b", fk+" returns", core.InstrPos(rt), "the applied function value does not come from lookups in the decoder table only")
-				continue
-			}
-			c.OK("R18b", fk+" returns", core.InstrPos(rt), "selected table function applied to the input parameter")
-		}
-	}
-	if nret == 0 {
-		c.Unresolved("R18b", fk+" returns", "no return found")
-	}
-	sort.Slice(lookups, func(i, j int) bool { return lookups[i].Pos() < lookups[j].Pos() })
-	dyn, fallback := 0, 0
-	for _, l := range lookups {
-		if !isTableLoad(l.X) {
-			c.Bad("R18b", fk+" lookup", core.InstrPos(l), "function selected from a map other than the decoder table")
-			continue
-		}
-		if isIdentityConst(l.Index) {
-			fallback++
-			c.OK("R18b", fk+" fallback lookup", core.InstrPos(l), "constant key of the pass-through entry")
-			continue
-		}
-		if _, isConst := l.Index.(*ssa.Const); isConst {
-			c.Bad("R18b", fk+" fallback lookup", core.InstrPos(l), "fallback selects an entry other than the utf-8 pass-through")
-			continue
-		}
-		dyn++
-		call, ok := l.Index.(*ssa.Call)
-		good := ok && core.IsCallTo(call, c18StrsPkg, "StrPtrOrElse") && len(call.Call.Args) == 2
-		why := "lookup key is not StrPtrOrElse(<encoding field>, <default>)"
-		if good {
-			ld, ok := call.Call.Args[0].(*ssa.UnOp)
-			var fa *ssa.FieldAddr
-			if ok && ld.Op == token.MUL {
-				fa, _ = ld.X.(*ssa.FieldAddr)
-			}
-			switch {
-			case fa == nil || encField == nil || core.FieldOfAddr(fa) != encField:
-				good, why = false, "lookup key is not derived from the encoding field of the receiver"
-			case !c18FromReceiver(fa, wrap):
-				good, why = false, "encoding field is not read from the receiver"
-			case !isIdentityConst(call.Call.Args[1]):
-				good, why = false, "an absent encoding does not default to the utf-8 pass-through entry"
-			case !l.CommaOk:
-				good, why = false, "lookup with a schema-supplied key has no comma-ok fallback"
-			}
-		}
-		c.Check(good, "R18b", fk+" lookup key", core.InstrPos(l), "table[StrPtrOrElse(p.<encoding>, utf-8 key)] with comma-ok", why)
-	}
-	if len(lookups) > 0 {
-		c.Check(dyn == 1 && fallback+passThrough >= 1, "R18b", fk+" selection", wrap.Pos(),
-			"one schema-keyed lookup with a pass-through fallback", fmt.Sprintf("expected one schema-keyed lookup and a pass-through fallback, found %d and %d", dyn, fallback+passThrough))
-	}
-}
-
-// c18FromReceiver: the struct whose field is addressed is the receiver (value receivers are spilled to a local
-// that is stored once from the parameter).
-func c18FromReceiver(fa *ssa.FieldAddr, fn *ssa.Function) bool {
-	recv := ssa.Value(fn.Params[0])
-	if fa.X == recv {
-		return true
-	}
-	al, ok := fa.X.(*ssa.Alloc)
-	if !ok {
-		return false
-	}
-	n := 0
-	good := false
-	for _, u := range core.Referrers(al) {
-		if st, ok := u.(*ssa.Store); ok && st.Addr == ssa.Value(al) {
-			n++
-			good = st.Val == recv
-		}
-	}
-	return n == 1 && good
 }
 
 // c18ReaderStack checks NewTransform and the built-in NewIngester implementations.
